@@ -14,8 +14,7 @@ computed: the soundness proofs in `Proofs/Pipe*.lean` use only the edge-local ch
         C (hand-off) exactly one goroutine at a time holds the right to operate on `c`; the right
                     moves with a message on a hand-off channel; a close gives it up
   W2  every blocking operation of a pipeline goroutine sits in a select with the context
-      alternative (or a default / timer alternative), except a lone receive on a channel
-      with W3
+      alternative (or a timer alternative), except a lone receive on a channel with W3
   W3  a lone receive / range: the channel's closer is a static pipeline goroutine of smaller
       rank that closes it on every path to its exit; `wgWait w`: every goroutine owing a
       `wgDone w` is static, of smaller rank
@@ -286,7 +285,6 @@ def W1c (p : Pipeline) (c : Ch) : Bool := discN p c || discA p c || discB p c ||
 def Alt.isGuard : Alt → Bool
   | .ctx k _ => k == 0
   | .tick _ => true
-  | .dflt _ => true
   | _ => false
 
 def rankOf (p : Pipeline) (g : Gi) : Nat := match p.rank[g]? with | some r => r | none => 0
@@ -369,6 +367,18 @@ def distOk (esc : Node → List (Lab × Pc)) (nodes : List Node) (target : Node 
 def W4g (p : Pipeline) (g : Gi) (gr : Goroutine) : Bool :=
   distOk (escEdges p g) gr.nodes Node.isExit (fun _ => true)
     (distTo (escEdges p g) gr.nodes Node.isExit)
+
+/-- W2 + W3 + W4 for one pipeline goroutine -/
+def liveG (p : Pipeline) (g : Gi) (gr : Goroutine) : Bool :=
+  gr.nodes.all (nodeLive p g) && W4g p g gr
+
+/-- the liveness half of well-formedness: indices in range, every pipeline goroutine live -/
+def LiveOk (p : Pipeline) : Bool :=
+  W0 p && p.gs.zipIdx.all fun x => x.1.daemon || liveG p x.2 x.1
+
+/-- the safety half: every channel passes W1, every wait group passes W5 -/
+def SafeOk (p : Pipeline) : Bool :=
+  (List.range p.chans.length).all (W1c p) && (List.range p.wgs.length).all (W5w p)
 
 /-- the collector `d`, while it holds the right to operate on `c` (received on `r`), can always
     get to `close c` by escape edges alone (its own timer, the request's context): it does not
